@@ -721,7 +721,7 @@ class MethodCtx:
         if isinstance(e.value, ast.Name) and e.value.id == "self" and e.attr in self.cls.consts:
             txt, t = self.cls.consts[e.attr]
             return txt, parse_ty(t)
-        if p is not None:
+        if p is not None and not (isinstance(e.value, ast.Name) and env.locals.get(e.value.id) in ("I", "D")):
             txt, t = self.raw_path(e, env)
             return txt, t
         # attribute of a general expression
